@@ -407,10 +407,10 @@ def check_file(res, data, pps, perf, kn):
     # bank to the next program change it receives
     # (judged for the program changes the performance has; the default program 0 the writer adds to a channel without
     # any is not a selection the performance makes)
-    explicit = set((int(p_.get("channel", 0)), int(p_["program"])) for pp in pps for p_ in pp.programs)
+    explicit = [(int(p_.get("channel", 0)), int(p_["program"]), p_["time"]) for pp in pps for p_ in pp.programs]
     for ti, tr in enumerate(smf["tracks"]):
         for i, ev in enumerate(tr):
-            if ev["type"] == "program_change" and (ev["channel"], ev["program"]) in explicit:
+            if ev["type"] == "program_change" and any(c_ == ev["channel"] and g_ == ev["program"] and ticks_ok(t_, ev["tick"], ppq, mpq) for c_, g_, t_ in explicit):
                 late = [e2 for e2 in tr[i + 1 :] if e2["tick"] == ev["tick"] and e2["type"] == "control_change" and e2["channel"] == ev["channel"] and e2["control"] in (0, 32)]
                 if late:
                     res.probe("bank_select_with_program")
